@@ -1,5 +1,5 @@
 use std::env;
-use std::ffi::{CString, OsStr, OsString};
+use std::ffi::{CStr, CString, OsStr, OsString};
 use std::fs::File;
 use std::io::{Error, Result};
 use std::iter;
@@ -50,12 +50,17 @@ pub fn setgid(gid: u32) -> Result<()> {
     Ok(())
 }
 
+pub fn chdir(dir: &CStr) -> Result<()> {
+    check_err(unsafe { libc::chdir(dir.as_ptr()) })?;
+    Ok(())
+}
+
 pub fn setpgid(pid: u32, pgid: u32) -> Result<()> {
     check_err(unsafe { libc::setpgid(pid as _, pgid as _) })?;
     Ok(())
 }
 
-fn os_to_cstring(s: &OsStr) -> Result<CString> {
+pub fn os_to_cstring(s: &OsStr) -> Result<CString> {
     // Like CString::new, but returns an io::Result for consistency with
     // everything else.
     CString::new(s.as_bytes()).map_err(|_| Error::from_raw_os_error(libc::EINVAL))
